@@ -189,15 +189,115 @@ class Case(object):
         return dict(self.stubs)
 
 
+class NativeIt(object):
+    """what a callee contract (stub) sees when the case is replayed natively"""
+
+    def __init__(self, H):
+        self.H = H
+        self.trace = []
+        self.asm_obj = None
+        self.path = self
+
+    def get_global(self, module, name):
+        return getattr(module, name)
+
+    def set_global(self, module, name, v):
+        self.H.set_global(module, name, v)
+
+    # stubs state callee preconditions with it.path.prove(name, claim)
+    def prove(self, name, claim, alts=(), info=None):
+        return self.H.check(name, claim)
+
+    def note(self, msg):
+        pass
+
+
+def _resolve(qual):
+    """qualified name -> (owner object, attribute name, current value)"""
+    import importlib
+    parts = qual.split('.')
+    for i in range(len(parts) - 1, 0, -1):
+        try:
+            mod = importlib.import_module('.'.join(parts[:i]))
+        except ImportError:
+            continue
+        owner = mod
+        try:
+            for p_ in parts[i:-1]:
+                owner = getattr(owner, p_)
+            cur = interp._static_lookup(owner, parts[-1]) if isinstance(owner, type) else getattr(owner, parts[-1])
+        except AttributeError:
+            return None
+        return owner, parts[-1], cur
+    return None
+
+
+def native_patches(case, it):
+    """install the callee contracts of the case as native monkey patches; returns an undo list"""
+    undo = []
+
+    def patch(owner, name, new):
+        had = name in vars(owner) if hasattr(owner, '__dict__') else True
+        old = vars(owner).get(name, _MISSING) if hasattr(owner, '__dict__') else getattr(owner, name)
+        setattr(owner, name, new)
+        undo.append((owner, name, old if had else _MISSING))
+
+    for qual, st in case.make_stubs().items():
+        if qual == '_io.open':
+            def wrapper(*a, _st=st, **k):
+                return _st(it, *a, **k)
+            for f in case.functions:
+                g = getattr(f, '__globals__', None)
+                if g is not None:
+                    mod = sys.modules.get(g.get('__name__'))
+                    if mod is not None:
+                        patch(mod, 'open', wrapper)
+            continue
+        res = _resolve(qual)
+        if res is None:
+            continue
+        owner, name, cur = res
+        if isinstance(cur, property):
+            new = property(lambda self, _st=st: _st(it, self))
+        elif isinstance(owner, type):
+            def new(self, *a, _st=st, **k):
+                return _st(it, self, *a, **k)
+        else:
+            def new(*a, _st=st, **k):
+                return _st(it, *a, **k)
+        patch(owner, name, new)
+        # names imported with `from m import f` into other repo modules
+        if not isinstance(owner, type) and isinstance(cur, (type(_resolve), type)):
+            for m in list(sys.modules.values()):
+                f_ = getattr(m, '__file__', None) or ''
+                if m is owner or not f_.startswith(interp.REPO_ROOT + os.sep):
+                    continue
+                for k_, v_ in list(vars(m).items()):
+                    if v_ is cur:
+                        patch(m, k_, new)
+    return undo
+
+
 def _replay_one(case, inputs):
     H = ConH(inputs)
+    H.it = NativeIt(H)
     err = None
+    undo = native_patches(case, H.it)
     try:
         case.run(H)
     except BaseException as e:
-        if isinstance(e, (KeyboardInterrupt, SystemExit)):
+        if isinstance(e, KeyboardInterrupt):
             raise
         err = "%s: %s" % (type(e).__name__, e)
+    finally:
+        for owner, name, old in reversed(undo):
+            try:
+                if old is _MISSING:
+                    delattr(owner, name)
+                else:
+                    setattr(owner, name, old)
+            except Exception:
+                pass
     return dict(failed=H.failed, checked=H.checked, assume_failed=H.assume_failed, error=err)
 
 
